@@ -375,16 +375,24 @@ func runC09(seed uint64, tier, dir, replay string) error {
 		if e.VLANID.VID != 0 || e.VLANID.PCP != 0 {
 			tagged = 1
 		}
+		want := canonHash(e)
 		r := pool.Run("eth", b)
+		same := 0
+		if r.chash == want {
+			same = 1
+		}
 		tag := 0
 		fmt.Sscanf(r.extra, "tag%d", &tag)
-		js := map[string]interface{}{"kind": "frame:" + kind, "bytes": hexs(b), "len": e.Len(), "reencoded": hexs(r.re), "payload_tag": r.extra, "outcome": r.outcome,
+		js := map[string]interface{}{"kind": "frame:" + kind, "bytes": hexs(b), "len": e.Len(), "reencoded": hexs(r.re), "payload_tag": r.extra, "outcome": r.outcome, "fields_equal": same == 1,
 			"vlan": map[string]interface{}{"vid": e.VLANID.VID, "pcp": e.VLANID.PCP, "dei": e.VLANID.DEI}}
 		if tagged == 1 && e.VLANID.VID == 0 {
 			js["sig"] = "priority-tag-vid0"
 		}
-		o.Add(fmt.Sprintf("(Frame %s %d %d %s %d %d %d %d %d)", packBytes(b), e.Len(), r.outcome, packBytes(r.re), tag, r.lenv,
-			tagged, uint64(e.VLANID.PCP)<<13|uint64(e.VLANID.DEI)<<12|uint64(e.VLANID.VID), e.Ethertype),
+		if same == 0 {
+			js["fields_before"] = canonString(e)
+		}
+		o.Add(fmt.Sprintf("(Frame %s %d %d %s %d %d %d %d %d %d)", packBytes(b), e.Len(), r.outcome, packBytes(r.re), tag, r.lenv,
+			tagged, uint64(e.VLANID.PCP)<<13|uint64(e.VLANID.DEI)<<12|uint64(e.VLANID.VID), e.Ethertype, same),
 			js, "frame:"+kind, fmt.Sprintf("%d/%d", len(b)/16, tag))
 	}
 	// (b) bit lanes, exhaustively for the 8/16-bit groups
